@@ -5,6 +5,12 @@ proof side : lean/Heph/Props/C11.lean — for the MODELLED languages (registry h
              histories (`visit_state`, `history_independent`, `is_sam_never`, …), plus the write-set
              theorems over the table regenerated on every run from src/translators/*.py
              (`translators_write_self_only`, `reset_complete_partial`).
+             Groovy (lean/Heph/Props/C11Groovy.lean, imported by C11.lean, namespace Heph.Props.C11.Groovy, model
+             lean/Heph/Model/TransGroovy.lean = port of src/translators/groovy.py): `Groovy.visit_state` (every visit
+             hands all attributes back; no leaking node), `Groovy.reset_state_exact`, `Groovy.visit_program_state`,
+             `Groovy.visit_program_resets`, `Groovy.program_state_independent`, `Groovy.history_independent`,
+             `Groovy.translate_twice`, `Groovy.forgets_any_state`, and three counterexample theorems whose witnesses
+             harness/c11_groovy.py replays on the real GroovyTranslator and on the model.
 tie to code: a pipeline plugin (harness/c11_plugin.py) translates every explored program (stages gen,
              erase, overwrite of real pipeline runs) with the REAL translators of all four languages
              under H histories, inside the worker, and records
@@ -15,6 +21,9 @@ tie to code: a pipeline plugin (harness/c11_plugin.py) translates every explored
              and this check compares, for every language with a Lean model,
                (5) model text (fresh object, and after the history [pool0, pool1, p]) = real text
                (6) top-level declarations visited from three hand-set states: texts and final state
+                   (Kotlin: ident/is_unit/is_lambda/_cast_integers; Groovy: ident/is_unit/_cast_number/_inside_is/
+                   _inside_is_function/_namespace — registry key `visit_states`; compared are `_children_res` and,
+                   for Groovy, all of `state_attrs` incl. `_main_children`, `_main_method`)
                (7) model state after a history = the real object's attributes
                (8) `tu.is_sam` on every class = model's answer (= False, theorem is_sam_never)      [Kotlin]
                (9) model text after [pool0] and an explicit `_reset_state()` = real text        [Scala]
@@ -130,14 +139,19 @@ def judge_stage(run, spec, stage, c11, found):
 
 
 # ------------------------------------------------------------------ model legs
+def visit_states(m):
+    """hand-set states of the visit leg: the registry's, default the three Kotlin states"""
+    return m.get("visit_states") or [{"ident": i, "is_unit": u, "is_lambda": l, "_cast_integers": c}
+                                     for (i, u, l, c) in VISIT_STATES]
+
+
 def model_requests(L, e, pool_exports):
     m = MODELS[L]
     rq = [{"op": m["op"], "program": e, "package": "src.pkg"},
           {"op": m["op"], "program": e, "package": "src.pkg", "history": [pool_exports[0], pool_exports[1], e]},
           {"op": m["state_op"], "program": e, "package": "src.pkg", "history": [pool_exports[0], pool_exports[1], e]}]
-    for (ident, unit, lam, cast) in VISIT_STATES:
-        rq.append({"op": m["visit_op"], "program": e, "ident": ident, "is_unit": unit, "is_lambda": lam,
-                   "_cast_integers": cast})
+    for vs in visit_states(m):
+        rq.append(dict(vs, op=m["visit_op"], program=e))
     if "issam_op" in m:
         rq.append({"op": m["issam_op"], "program": e})
     if m.get("reset"):
@@ -187,8 +201,8 @@ def model_judge(L, rq, ans, c11):
         if c11[L + "_after_reset"] != text:
             out.append(("real-text-after-reset-differs-from-fresh", c11_plugin.first_diff(text, c11[L + "_after_reset"])))
     if "issam_op" in m and "is_sam" in c11:
-        if ans[3 + len(VISIT_STATES)]["r"] != c11["is_sam"]:
-            out.append(("is_sam", {"real": c11["is_sam"][:8], "model": ans[3 + len(VISIT_STATES)]["r"][:8]}))
+        if ans[3 + len(visit_states(m))]["r"] != c11["is_sam"]:
+            out.append(("is_sam", {"real": c11["is_sam"][:8], "model": ans[3 + len(visit_states(m))]["r"][:8]}))
     return out
 
 
@@ -499,6 +513,9 @@ def check(run):
         witness_scala(run)
         stream_random_trees(run, 300 if quick else 4000)
     witness_finding14(run)
+    if "groovy" in MODELS:
+        import c11_groovy
+        c11_groovy.replay_witnesses(run)
 
     nprog, hist, cap, budget = (40, 5, 100, 100) if quick else (1000, 12, 150, 1500)
     depths = [3, 4, 4, 5, 5, 6] if quick else [4, 5, 5, 6, 6, 7]
@@ -535,6 +552,10 @@ def replay(run, rp):
     if str(rp.get("witness", "")).startswith("Scala."):
         witness_scala(run)
         run.cov["rule"] = "replay of the Scala witnesses"
+    if str(rp.get("witness", "")).startswith("Groovy."):
+        import c11_groovy
+        c11_groovy.replay_witnesses(run, only=rp["witness"])
+        run.cov["rule"] = "replay of a Groovy counterexample witness"
         return
     if rp.get("witness") == "visit_restores_counterexample":
         witness_block_super(run)
